@@ -459,13 +459,23 @@ fn getters_tbl(a: &Args, o: &mut Obs) {
     let deep = a.flag("deep");
     let digest = a.flag("digest");
     let rows_filter = a.usize("max-rows", usize::MAX);
+    // `--only-ne --lite`: the native-endian rows with a reduced set of implementors / patterns / paths, small
+    // enough to be interpreted completely for a big-endian target (their big-endian arms run nowhere else)
+    let only_ne = a.flag("only-ne");
+    let lite = a.flag("lite");
     let rows = getters::rows();
     let mut idx = 0usize;
     for (ri, row) in rows.iter().enumerate().take(rows_filter) {
+        if only_ne && row.end != End::Ne {
+            continue;
+        }
         let nb_range: Vec<usize> = if row.width == 0 { (0..=9).collect() } else { vec![0] };
         for &nbytes in &nb_range {
             let w = if row.width == 0 { nbytes.min(8) } else { row.width };
             for (pi, pat) in getters::patterns(w, (ri * 31 + nbytes) as u64).iter().enumerate() {
+                if lite && ((w > 0 && !(pi == 4 || pi == 5)) || (w == 0 && pi != 0)) {
+                    continue;
+                }
                 idx += 1;
                 if idx % nshards != shard {
                     continue;
@@ -488,7 +498,13 @@ fn getters_tbl(a: &Args, o: &mut Obs) {
                     let cut2s: Vec<Option<usize>> = if w >= 4 && (deep || cut % 3 == 1) { (cut + 1..=w).map(Some).chain([None]).collect() } else { vec![None] };
                     for cut2 in cut2s {
                         for (iname, spec) in implementors(pat, cut, cut2, &[0xC3, 0x3C]) {
+                            if lite && !matches!(iname, "slice" | "Chain" | "SegBytes") {
+                                continue;
+                            }
                             for path in 0..3 {
+                                if lite && path != (cut + pi) % 3 {
+                                    continue;
+                                }
                                 rowdg = vharness::rng::fnv_u64(rowdg, getter_case(o, row, path, iname, &spec, nbytes, w + 2, &case));
                                 o.cell(format!("get|{}{}{}|w{w}|{iname}|{}|cut{}", tyn, if row.width == 0 { "var" } else { "" }, endn, PATHS[path], if cut == 0 || cut > w { "outside" } else if cut2.is_some() { "two-inside" } else { "inside" }));
                             }
@@ -497,12 +513,24 @@ fn getters_tbl(a: &Args, o: &mut Obs) {
                 }
                 // exactly enough bytes (nothing behind the value)
                 for (iname, spec) in implementors(pat, w / 2, None, &[]) {
+                    if lite && !matches!(iname, "slice" | "SegBytes") {
+                        continue;
+                    }
                     rowdg = vharness::rng::fnv_u64(rowdg, getter_case(o, row, pi % 3, iname, &spec, nbytes, w, &case));
                 }
                 // (2) every shortfall, boundary before / inside the available bytes
                 for avail in 0..w {
+                    if lite && avail + 1 != w {
+                        continue;
+                    }
                     for cut in [0, avail / 2, avail] {
+                        if lite && cut != avail / 2 {
+                            continue;
+                        }
                         for (iname, spec) in implementors(&pat[..avail], cut, None, &[]) {
+                            if lite && !matches!(iname, "slice" | "Chain") {
+                                continue;
+                            }
                             let path = (avail + cut + pi) % 3;
                             rowdg = vharness::rng::fnv_u64(rowdg, getter_case(o, row, path, iname, &spec, nbytes, avail, &case));
                             o.cell(format!("get|{}{}{}|w{w}|{iname}|short", tyn, if row.width == 0 { "var" } else { "" }, endn));
